@@ -34,7 +34,7 @@ def check(ctx, tier):
     W.report(ctx, tk, "C18.e", fs)
     tk.purity("C18.p", [ctx.func(q) for q in ['npdataclasses.NpDataClass.__getitem__', 'npdataclasses.NpDataClass.__len__', 'npdataclasses.NpDataClass.__iter__', 'npdataclasses.NpDataClass.__array_function__', 'npdataclasses.NpDataClass.astype', 'npdataclasses.VarLenArray.__array_function__', 'npdataclasses.npdataclass.FinalClass.__eq__']], "the operation does not write into its operands' buffers", content_only=True)
     from .. import hazards as _hz, scopes as _sc
-    _hz.generic(ctx, tk, "C18.z", _sc.scope(tk, "C18", depth=2))
+    _hz.generic(ctx, tk, "C18.z", _sc.scope(tk, "C18", depth=1))
     return {}
 
 
